@@ -26,6 +26,20 @@ use crate::{
     void::Void,
 };
 
+fn bad_json(what: &str) -> StoryError {
+    StoryError::BadJson(format!("Unexpected value for {what}"))
+}
+
+fn expect_str<'a>(v: &'a serde_json::Value, what: &str) -> Result<&'a str, StoryError> {
+    v.as_str().ok_or_else(|| bad_json(what))
+}
+
+fn expect_i32(v: &serde_json::Value, what: &str) -> Result<i32, StoryError> {
+    v.as_i64()
+        .and_then(|n| i32::try_from(n).ok())
+        .ok_or_else(|| bad_json(what))
+}
+
 pub fn load_from_string(
     s: &str,
 ) -> Result<(i32, Rc<Container>, Rc<ListDefinitionsOrigin>), StoryError> {
@@ -42,7 +56,7 @@ pub fn load_from_string(
         ));
     }
 
-    let version: i32 = version_opt.unwrap().as_i64().unwrap().try_into().unwrap();
+    let version: i32 = expect_i32(version_opt.unwrap(), "inkVersion")?; // unwrap: checked above
 
     if version > INK_VERSION_CURRENT {
         return Err(StoryError::BadJson(
@@ -97,7 +111,7 @@ pub fn jtoken_to_runtime_object(
         serde_json::Value::Bool(value) => Ok(Rc::new(Value::new::<bool>(value.to_owned()))),
         serde_json::Value::Number(_) => {
             if token.is_i64() {
-                let val: i32 = token.as_i64().unwrap().try_into().unwrap();
+                let val: i32 = expect_i32(token, "an integer (out of the 32 bit range)")?;
                 Ok(Rc::new(Value::new::<i32>(val)))
             } else {
                 let val: f32 = token.as_f64().unwrap() as f32;
@@ -109,7 +123,10 @@ pub fn jtoken_to_runtime_object(
             let str = value.as_str();
 
             // String value
-            let first_char = str.chars().next().unwrap();
+            let first_char = match str.chars().next() {
+                Some(c) => c,
+                None => return Err(bad_json("a content string (empty)")),
+            };
             if first_char == '^' {
                 return Ok(Rc::new(Value::new::<&str>(&str[1..])));
             } else if first_char == '\n' && str.len() == 1 {
@@ -162,12 +179,12 @@ pub fn jtoken_to_runtime_object(
             let prop_value = obj.get("^var");
 
             if let Some(v) = prop_value {
-                let variable_name = v.as_str().unwrap();
+                let variable_name = expect_str(v, "^var")?;
                 let mut contex_index = -1;
                 let prop_value = obj.get("ci");
 
                 if let Some(v) = prop_value {
-                    contex_index = v.as_i64().unwrap() as i32;
+                    contex_index = v.as_i64().ok_or_else(|| bad_json("ci"))? as i32;
                 }
 
                 let var_ptr = Rc::new(Value::new_variable_pointer(variable_name, contex_index));
@@ -209,7 +226,7 @@ pub fn jtoken_to_runtime_object(
             }
 
             if is_divert {
-                let target = prop_value.unwrap().as_str().unwrap().to_string();
+                let target = expect_str(prop_value.unwrap(), "a divert target")?.to_string(); // unwrap: is_divert
 
                 let mut var_divert_name: Option<String> = None;
                 let mut target_path: Option<String> = None;
@@ -229,7 +246,7 @@ pub fn jtoken_to_runtime_object(
                 if external {
                     prop_value = obj.get("exArgs");
                     if let Some(prop_value) = prop_value {
-                        external_args = prop_value.as_i64().unwrap() as usize;
+                        external_args = prop_value.as_u64().ok_or_else(|| bad_json("exArgs"))? as usize;
                     }
                 }
 
@@ -248,10 +265,10 @@ pub fn jtoken_to_runtime_object(
             let prop_value = obj.get("*");
             if let Some(cp) = prop_value {
                 let mut flags = 0;
-                let path_string_on_choice = cp.as_str().unwrap();
+                let path_string_on_choice = expect_str(cp, "a choice point path")?;
                 let prop_value = obj.get("flg");
                 if let Some(f) = prop_value {
-                    flags = f.as_u64().unwrap();
+                    flags = f.as_u64().ok_or_else(|| bad_json("flg"))?;
                 }
 
                 return Ok(Rc::new(ChoicePoint::new(
@@ -263,14 +280,14 @@ pub fn jtoken_to_runtime_object(
             // // Variable reference
             let prop_value = obj.get("VAR?");
             if let Some(name) = prop_value {
-                return Ok(Rc::new(VariableReference::new(name.as_str().unwrap())));
+                return Ok(Rc::new(VariableReference::new(expect_str(name, "VAR?")?)));
             }
 
             let prop_value = obj.get("CNT?");
             if let Some(v) = prop_value {
-                return Ok(Rc::new(VariableReference::from_path_for_count(
-                    v.as_str().unwrap(),
-                )));
+                return Ok(Rc::new(VariableReference::from_path_for_count(expect_str(
+                    v, "CNT?",
+                )?)));
             }
 
             // // Variable assignment
@@ -293,7 +310,7 @@ pub fn jtoken_to_runtime_object(
             }
 
             if is_var_ass {
-                let var_name = prop_value.unwrap().as_str().unwrap();
+                let var_name = expect_str(prop_value.unwrap(), "a variable name")?; // unwrap: is_var_ass
                 let prop_value = obj.get("re");
                 let is_new_decl = prop_value.is_none();
 
@@ -308,32 +325,34 @@ pub fn jtoken_to_runtime_object(
             // Legacy Tag
             prop_value = obj.get("#");
             if let Some(prop_value) = prop_value {
-                return Ok(Rc::new(Tag::new(prop_value.as_str().unwrap())));
+                return Ok(Rc::new(Tag::new(expect_str(prop_value, "#")?)));
             }
 
             // List value
             prop_value = obj.get("list");
 
             if let Some(pv) = prop_value {
-                let list_content = pv.as_object().unwrap();
+                let list_content = pv.as_object().ok_or_else(|| bad_json("list"))?;
                 let mut raw_list = InkList::new();
 
                 prop_value = obj.get("origins");
 
                 if let Some(o) = prop_value {
-                    let names_as_objs = o.as_array().unwrap();
+                    let names_as_objs = o.as_array().ok_or_else(|| bad_json("origins"))?;
 
-                    let names = names_as_objs
-                        .iter()
-                        .map(|e| e.as_str().unwrap().to_string())
-                        .collect();
+                    let mut names = Vec::with_capacity(names_as_objs.len());
+                    for e in names_as_objs {
+                        names.push(expect_str(e, "an origin name")?.to_string());
+                    }
 
                     raw_list.set_initial_origin_names(names);
                 }
 
                 for (k, v) in list_content {
                     let item = InkListItem::from_full_name(k);
-                    raw_list.items.insert(item, v.as_i64().unwrap() as i32);
+                    raw_list
+                        .items
+                        .insert(item, v.as_i64().ok_or_else(|| bad_json("a list item value"))? as i32);
                 }
 
                 return Ok(Rc::new(Value::new::<InkList>(raw_list)));
@@ -360,7 +379,10 @@ fn jarray_to_container(
     //  - named content
     //  - a "#f" key with the countFlags
     // (if either exists at all, otherwise null)
-    let terminating_obj = jarray[jarray.len() - 1].as_object();
+    let terminating_obj = match jarray.last() {
+        Some(last) => last.as_object(),
+        None => return Err(bad_json("a container (empty array)")),
+    };
     let mut name: Option<String> = name;
     let mut flags = 0;
 
@@ -369,16 +391,15 @@ fn jarray_to_container(
     if let Some(terminating_obj) = terminating_obj {
         for (k, v) in terminating_obj {
             match k.as_str() {
-                "#f" => flags = v.as_i64().unwrap().try_into().unwrap(),
-                "#n" => name = Some(v.as_str().unwrap().to_string()),
+                "#f" => flags = expect_i32(v, "#f")?,
+                "#n" => name = Some(expect_str(v, "#n")?.to_string()),
                 k => {
-                    let named_content_item =
-                        jtoken_to_runtime_object(v, Some(k.to_string())).unwrap();
+                    let named_content_item = jtoken_to_runtime_object(v, Some(k.to_string()))?;
 
                     let named_sub_container = named_content_item
                         .into_any()
                         .downcast::<Container>()
-                        .unwrap();
+                        .map_err(|_| bad_json("named content (not a container)"))?;
 
                     named_only_content.insert(k.to_string(), named_sub_container);
                 }
@@ -416,12 +437,15 @@ pub fn jarray_to_runtime_obj_list(
 }
 
 fn jobject_to_choice(obj: &Map<String, serde_json::Value>) -> Result<Rc<dyn RTObject>, StoryError> {
-    let text = obj.get("text").unwrap().as_str().unwrap();
-    let index = obj.get("index").unwrap().as_u64().unwrap() as usize;
-    let source_path = obj.get("originalChoicePath").unwrap().as_str().unwrap();
-    let original_thread_index = obj.get("originalThreadIndex").unwrap().as_i64().unwrap() as usize;
-    let path_string_on_choice = obj.get("targetPath").unwrap().as_str().unwrap();
-    let choice_tags = jarray_to_tags(obj);
+    let field = |name: &str| obj.get(name).ok_or_else(|| bad_json(name));
+    let text = expect_str(field("text")?, "text")?;
+    let index = field("index")?.as_u64().ok_or_else(|| bad_json("index"))? as usize;
+    let source_path = expect_str(field("originalChoicePath")?, "originalChoicePath")?;
+    let original_thread_index = field("originalThreadIndex")?
+        .as_u64()
+        .ok_or_else(|| bad_json("originalThreadIndex"))? as usize;
+    let path_string_on_choice = expect_str(field("targetPath")?, "targetPath")?;
+    let choice_tags = jarray_to_tags(obj)?;
 
     Ok(Rc::new(Choice::new_from_json(
         path_string_on_choice,
@@ -433,18 +457,18 @@ fn jobject_to_choice(obj: &Map<String, serde_json::Value>) -> Result<Rc<dyn RTOb
     )))
 }
 
-fn jarray_to_tags(obj: &Map<String, serde_json::Value>) -> Vec<String> {
+fn jarray_to_tags(obj: &Map<String, serde_json::Value>) -> Result<Vec<String>, StoryError> {
     let mut tags: Vec<String> = Vec::new();
 
     let prop_value = obj.get("tags");
     if let Some(pv) = prop_value {
-        let tags_array = pv.as_array().unwrap();
+        let tags_array = pv.as_array().ok_or_else(|| bad_json("tags"))?;
         for tag in tags_array {
-            tags.push(tag.as_str().unwrap().to_string());
+            tags.push(expect_str(tag, "a tag")?.to_string());
         }
     }
 
-    tags
+    Ok(tags)
 }
 
 pub fn jtoken_to_list_definitions(
@@ -452,11 +476,14 @@ pub fn jtoken_to_list_definitions(
 ) -> Result<ListDefinitionsOrigin, StoryError> {
     let mut all_defs: Vec<ListDefinition> = Vec::with_capacity(0);
 
-    for (name, list_def_json) in def.as_object().unwrap() {
+    for (name, list_def_json) in def.as_object().ok_or_else(|| bad_json("listDefs"))? {
         // Cast (string, object) to (string, int) for items
         let mut items: HashMap<String, i32> = HashMap::new();
-        for (k, v) in list_def_json.as_object().unwrap() {
-            items.insert(k.clone(), v.as_u64().unwrap() as i32);
+        for (k, v) in list_def_json
+            .as_object()
+            .ok_or_else(|| bad_json("a list definition"))?
+        {
+            items.insert(k.clone(), expect_i32(v, "a list item value")?);
         }
 
         let def = ListDefinition::new(name.clone(), items);
@@ -477,7 +504,7 @@ pub(crate) fn jobject_to_hashmap_values(
             jtoken_to_runtime_object(v, None)?
                 .into_any()
                 .downcast::<Value>()
-                .unwrap(),
+                .map_err(|_| bad_json("a variable (not a value)"))?,
         );
     }
 
@@ -490,7 +517,7 @@ pub(crate) fn jobject_to_int_hashmap(
     let mut dict: HashMap<String, i32> = HashMap::new();
 
     for (k, v) in jobj.iter() {
-        dict.insert(k.clone(), v.as_i64().unwrap() as i32);
+        dict.insert(k.clone(), expect_i32(v, "a count")?);
     }
 
     Ok(dict)
